@@ -515,7 +515,9 @@ def x7_shims(text, log):
     def tget(m):
         log.add("X7:vx_tables_get")
         return "vx_tables_get(%s, %s)" % (m.group(1), m.group(2))
-    text = re.sub(r"\b(tables)\.get\((&self\.table_name)\)", tget, text)
+    # every lookup `tables.get(<arg>)` on the `tables: &BTreeMap<String, Rc<Table>>` parameter (a
+    # differently typed argument then fails to type-check against the shim: UNDECIDED, not an alarm)
+    text = re.sub(r"(?<![.\w])(tables)\.get\(((?:[^()]|\([^()]*\))*)\)", tget, text)
 
     def anypk(m):
         log.add("X7:vx_any_primary_key")
